@@ -38,3 +38,147 @@ PROPS["C20"] = {
     "assumptions": ["usize::MAX returned by estimate_count is read as 'not finite' (it only arises from +inf)",
                     "uniformly random elements come from a splitmix64 stream"],
 }
+
+
+# ------------------------------------------------------------------------------------------
+# pocket-types properties
+
+def types_legs(cmd, tier, miri_quick=0, miri_thorough=(0, 0), asan_quick=False, asan_args=None, timeout_thorough=3600):
+    """debug + release always; Miri on a seeded sample; ASan with exact-size buffers."""
+    t = timeout_thorough if tier == "thorough" else 600
+    legs = both(cmd, timeout=t)
+    asan_args = asan_args or []
+    if tier == "thorough" or asan_quick:
+        legs.append(leg("asan", "asan", [cmd] + asan_args, timeout=t, mandatory=False))
+    if tier == "thorough":
+        shards, per = miri_thorough
+        for i in range(shards):
+            legs.append(leg(f"miri{i}", "miri", [cmd, "--sample", str(per), "--seed-add", str(i + 1)], timeout=t, mandatory=False))
+    elif miri_quick:
+        legs.append(leg("miri", "miri", [cmd, "--sample", str(miri_quick)], timeout=600, mandatory=False))
+    return legs
+
+
+COMMON_TYPES_NOTE = ("Trusted: serde_json 1.0 as the independent parser (its 128-level recursion limit and its "
+                     "last-wins handling of duplicate keys bound the domain), the harness generators (three-way "
+                     "comparison generator/serde/pocket; generator != serde is a harness error, not a violation). "
+                     "Observed executions only.")
+
+PROPS["C01"] = {
+    "level": "exploration",
+    "technique": "runtime monitoring: differential oracle against serde_json over enumerated member orders + generated texts; debug+release, Miri sample, ASan",
+    "level_text": ("Runs Event::from_json on every one of the 5040 member orders of two base events, on whitespace at "
+                   "every token gap, every ASCII code point and a stratified scalar sample in every legal escape "
+                   "spelling, unknown members of every JSON value kind at every position, integer boundary spellings, "
+                   "tag sections up to 65,535 bytes, and seeded random combinations and mutations, comparing acceptance, "
+                   "consumed length and every accessor with serde_json. Exhaustive only in the member-order dimension."),
+    "level_note": COMMON_TYPES_NOTE,
+    "legs": lambda tier: types_legs("c01", tier, miri_quick=5, miri_thorough=(16, 10)),
+    "rule": ("texts rendered from semantic events (member order, whitespace plan, escape spelling per character, hex "
+             "case, unknown members, integer spellings) followed by random trailing bytes, plus structured/byte "
+             "mutations of those texts for the 'accepted valid JSON => same values' clause. distinct = 64-bit hash of "
+             "the text; non-trivial = text of at least 204 bytes (gets past the parser's first length check)."),
+    "exhaustive_note": "exhaustive for the 5040 member orders x 2 base events only",
+    "assumptions": ["known member names are spelled literally (escaped spellings of a key are outside the domain)",
+                    "texts with duplicate top-level keys, invalid JSON, surrogate-pair escapes or nesting beyond serde's limit carry no claim"],
+}
+
+PROPS["C02"] = {
+    "level": "exploration",
+    "technique": "runtime monitoring: round-trip and canonicity oracle (as_json -> serde_json -> from_json; k renderings into dirty buffers vs from_parts, ==, Hash); debug+release, Miri sample, ASan",
+    "level_text": ("For fixed shapes (every ASCII character, all tag shapes, field extremes) and seeded random events: "
+                   "as_json must be accepted by serde_json and read back to the same values, re-parsing must give "
+                   "byte-identical events, and several renderings of the same event parsed into output buffers "
+                   "pre-filled with 0x00/0xFF/0xAA/random bytes/a previous event must be byte-identical to the "
+                   "from_parts form, compare == and hash equal."),
+    "level_note": COMMON_TYPES_NOTE,
+    "legs": lambda tier: types_legs("c02", tier, miri_quick=3, miri_thorough=(16, 6)),
+    "rule": ("semantic events with valid UTF-8 strings; each evaluated through as_json/serde/from_json, 6-8 random "
+             "renderings (half without unknown members) into buffers with five kinds of prior contents, and the tags "
+             "alone. distinct = hash of the semantic event; non-trivial = has tags or content."),
+    "assumptions": ["events hold valid UTF-8 strings (the property's domain)"],
+}
+
+PROPS["C03"] = {
+    "level": "exploration",
+    "technique": "runtime monitoring: panic/abort/guard-zone/consumed-length monitors over deterministic sweeps and seeded mutations of every parsing entry point; debug+release, ASan with exact-size buffers, Miri sample, child processes for stack overflow, watchdog for non-termination",
+    "level_text": ("Calls every parsing entry point under catch_unwind with the output slice embedded in canary zones "
+                   "(native) or exactly sized (ASan/Miri): every prefix and every single-byte corruption (16 chosen "
+                   "bytes + random) of ~40 base texts, span edits, high bytes, unterminated strings, 1-200 digit "
+                   "numbers, 0-60 tag members, 65,536-element lists, every output buffer length 0..needed+8, 16-bit "
+                   "boundary sizes, hex strings of every length, deep nesting in child processes; on Ok results "
+                   "every accessor/iterator/serialiser is exercised. Both overflow-check configurations."),
+    "level_note": "a panic inside the harness's own accessor battery is attributed to pocket only via the recorded panic location; stack overflow is observed as a signal in a child process; non-termination = no progress for 25 s confirmed by an isolated re-run",
+    "legs": lambda tier: types_legs("c03", tier, miri_quick=30, miri_thorough=(16, 40), asan_quick=True, asan_args=["--exact"]),
+    "rule": ("(entry point, input bytes, output buffer length) triples from the sweeps named above. distinct = 64-bit "
+             "hash of the triple; non-trivial = the input is long enough and the buffer large enough to get past the "
+             "entry point's first length check."),
+    "assumptions": ["Hll8::from_hex_string takes &str, so its inputs are the lossy UTF-8 decoding of the byte string"],
+}
+
+PROPS["C06"] = {
+    "level": "exploration",
+    "technique": "runtime monitoring: differential oracle (20-line NIP-01 reference predicate) over generated (filter,event) pairs; debug+release",
+    "level_text": ("Compares Filter::event_matches with an independent reference predicate on a boundary grid of "
+                   "(since, until, created_at) triples and on seeded pairs generated from the event so that roughly "
+                   "half match, covering list sizes 0/1/many with the event's value first/last/absent, prefix and "
+                   "extension values, non-first values, repeated, empty and multi-letter names; a share of pairs also "
+                   "goes through the JSON parsers."),
+    "level_note": "the reference predicate in harness/src/sem.rs is the specification; operands built with from_parts are taken as well-formed",
+    "legs": lambda tier: both("c06", timeout=3600 if tier == "thorough" else 600),
+    "rule": ("pairs (filter, event) from small pools so that clauses collide; distinct = hash of both binary forms; "
+             "non-trivial = the filter has at least one clause. Evidence counters give the pass/fail split per clause."),
+    "assumptions": ["constraints without a name string (empty tag in a from_parts filter) are not generated"],
+}
+
+PROPS["C07"] = {
+    "level": "exploration",
+    "technique": "runtime monitoring: differential oracle against serde_json, order-permutation consistency monitor, round-trip oracle; debug+release, Miri sample, ASan",
+    "level_text": ("All 52x51 ordered pairs of distinct tag letters and sampled larger letter sets, every subset of the "
+                   "seven member kinds in every order (n<=6; sampled above), integer boundary spellings for "
+                   "limit/since/until/kinds (exact, saturated or rejected - never wrapped), unknown members and "
+                   "whitespace at every position, and seeded random filters are parsed and compared with serde_json; "
+                   "acceptance and meaning must not depend on member order; as_json of parsed and from_parts filters "
+                   "must be valid JSON denoting the same values and re-parse byte-identically."),
+    "level_note": COMMON_TYPES_NOTE,
+    "legs": lambda tier: types_legs("c07", tier, miri_quick=5, miri_thorough=(16, 12)),
+    "rule": ("filter texts rendered from semantic filters (member order, whitespace, escapes, hex case, unknown "
+             "members, integer spellings); distinct = hash of the text; non-trivial = more than '{}'."),
+    "exhaustive_note": "exhaustive for ordered pairs of distinct tag letters and for member orders of subsets with <= 6 members",
+    "assumptions": ["tag members are '#' + one ASCII letter; a letter occurring twice is a duplicate key and outside the domain",
+                    "a from_parts filter that repeats a letter serialises to duplicate keys: no claim"],
+}
+
+PROPS["C08"] = {
+    "level": "exploration",
+    "technique": "runtime monitoring: independent canonicaliser (serde_json) + independent SHA-256 + libsecp256k1 signing as oracle; positive and single-field-mutation negative cases; debug+release, ASan",
+    "level_text": ("Events are hashed by an independent canonicaliser and SHA-256 and signed in the harness: verify() "
+                   "must accept them; sign_new() must produce the same id and verify; every single-field mutation "
+                   "(each bit of the id, sampled bits of pubkey/sig, created_at/kind +-1, every tag string and the "
+                   "content altered in several ways, tag structure split/merged/dropped/duplicated/reordered, foreign "
+                   "key or signature) must fail. Strings cover every ASCII character alone and in runs, quotes and "
+                   "backslashes next to escapes, multi-byte and astral scalars."),
+    "level_note": "trusts libsecp256k1 for BIP-340 and serde_json's string escaping as the NIP-01 escaping (7 short escapes, \\u00xx lower-case, everything else verbatim); harness SHA-256 is cross-checked against bitcoin_hashes on every case",
+    "legs": lambda tier: both("c08", timeout=3600 if tier == "thorough" else 600) + ([leg("asan", "asan", ["c08"], timeout=3600, mandatory=False)] if tier == "thorough" else []),
+    "rule": ("semantic events (systematic strings for the first 320 of every 700, random otherwise), each sealed with "
+             "one of four keys and mutated ~120 ways; distinct = hash of the sealed event; non-trivial = has content or tags."),
+    "assumptions": ["valid UTF-8 strings only"],
+}
+
+PROPS["C19"] = {
+    "level": "exploration",
+    "technique": "runtime monitoring: accessor-faithfulness oracle and refuse-or-faithful monitor over size-boundary inputs and complete output-buffer-length sweeps; debug+release, ASan, Miri sample",
+    "level_text": ("Every constructor (Tags/Event/Filter from_parts, the Owned* constructors, sign_new, the three JSON "
+                   "entry points) is run on part lists on both sides of every 16-bit field (tag section 65,534..131,072 "
+                   "bytes as one long string or many short tags, single strings of 65,535/65,536 bytes, up to 70,000 "
+                   "tags / strings per tag / ids / authors / kinds, content up to 100,000 bytes) and on random shapes, "
+                   "with every output buffer length 0..needed+8 (sampled for large values): the result must be an "
+                   "error or a value whose accessors reproduce the parts; oversize inputs must be refused; a short "
+                   "buffer must give an error, never a panic or a partial value."),
+    "level_note": "needed sizes are computed independently by the harness and compared with output_size_needed",
+    "legs": lambda tier: types_legs("c19", tier, miri_quick=1, miri_thorough=(16, 2), asan_quick=True),
+    "rule": ("part lists (deterministic size families + seeded random shapes); each evaluation is one part list run "
+             "through all its constructors and buffer lengths. distinct = hash of (family, shape); non-trivial = not "
+             "the empty tags value. Counters give the number of buffer-length cases."),
+    "assumptions": ["content longer than 4 GiB (the u32 field) is not exercised"],
+}
